@@ -114,6 +114,8 @@ PROPS["C05"] = {
 
 SLOT_RULE = ("comment-slot enumeration: 46 constructs (every statement kind, expression kinds, Luau/5.2/5.4 forms) x every token gap x {block, multi-line block, line comment + newline} x 6 configurations = 9 954 cases, all oracles; closed and seed-independent. ")
 
+PROGEN_RULE = ("ring 3 (seeded): `hx progen` - 2 500 (thorough 20 000) random programs from a grammar of the whole language (every statement kind, nested blocks, tables, functions, call sugar, strings, numbers; comments and blank lines only between statements) x 2 random configurations each, judged by the re-parse, normal-form, comment-census and panic oracles. ")
+
 PIPE_RULE = ("ring 3 (closed set): the repository's 367 test inputs (+ committed catalogue) x a fixed grid of 79 configurations "
              "(column widths 1..usize::MAX, both indent types, widths 1-16, both line endings, every value of every enum option), "
              "plus a width sweep (every column width 1..130) of every one-line catalogue program; each case checked by independent oracles (re-parse, normal form, comment census, idempotence, whitespace scan, option rules, panic/time). ")
@@ -122,12 +124,12 @@ PROPS["C01"] = {
     "lean_modules": ["StyluaModel.Props.C01"],
     "theorem_prefix": "C01_",
     "required_theorems": ["C01_binops_spaced", "C01_binop_table_complete", "C01_unops_shape", "C01_no_minus_minus", "C01_expr_reparses", "C01_expr_parses_back", "C01_faithful_parses", "C01_parser_answers_right", "C01_type_wellformed", "C01_string_token"],
-    "hx": [["c05"], ["c02t"], ["c08"], ["pipe"], ["slots"]],
+    "hx": [["c05"], ["c02t"], ["c08"], ["pipe"], ["slots"], ["progen"]],
     "level": "proof",
     "level_text": "Proof, partial: theorems cover the expression-level edit closure (every parenthesis edit yields a tree that re-parses to itself, for all oracles), the `- -` clause, string tokens staying one token, and the operator-text table regenerated from the compiled code on every run. The statement-level grammar and the claim that every separator emitted by the ~150 trivia sites is safe are carried by the correspondence and the closed-set re-parse oracle only.",
     "level_note": "Trusted: Lean kernel; ParenRule/StrLit models tied by correspondence; Spec/Parser.lean (mirror of full_moon's expression parser) compared with full_moon on every run; OpTables observed from the compiled formatter by the translator; the closed-set oracle uses full_moon itself as the parser the property names.",
     "technique": "Lean 4 proofs over oracle-parameterised model + translated operator table + re-parse oracle on closed corpus set",
-    "rule": PIPE_RULE + SLOT_RULE + "ring 2: the `expr` correspondence of C05 (same request stream). distinct_nontrivial = distinct expr requests whose output tree differs from the input tree.",
+    "rule": PIPE_RULE + SLOT_RULE + PROGEN_RULE + "ring 2: the `expr` correspondence of C05 (same request stream); `tyfmt` (Luau types), `block` (statement sequences). distinct_nontrivial = distinct expr requests whose output tree differs from the input tree.",
     "trusted_base": ["statement-level grammar preservation is not modelled (tokens untouched => same parse) — covered by ring 3 only"],
     "assumptions": ["Luau type syntax is covered by the closed-set oracle only"],
 }
@@ -136,12 +138,12 @@ PROPS["C02"] = {
     "lean_modules": ["StyluaModel.Props.C02"],
     "theorem_prefix": "C02_",
     "required_theorems": ["C02_type_meaning", "C02_type_reparses", "C02_type_entry", "C02_type_fresh_context_violates", "C02_expr", "C02_expr_parsed", "C02_expr_at", "C02_cond", "C02_string_51", "C02_string_52", "C02_number"],
-    "hx": [["c05"], ["c02t"], ["c08"], ["pipe"], ["slots"]],
+    "hx": [["c05"], ["c02t"], ["c08"], ["pipe"], ["slots"], ["progen"]],
     "level": "proof",
     "level_text": "Proof, partial: theorems state that every modelled edit kind preserves meaning for inputs of any size and every layout oracle — parentheses (expression trees, truncation), condition parentheses, string literal values (5.1 and 5.2+ readings), number spelling. Statement order, call sugar and table separators are covered by the independent normal-form oracle on the closed corpus set and by the correspondence, not yet by theorems.",
     "level_note": "Trusted: Lean kernel; models tied by correspondence (expr/strlit protocols); the harness normal form N (harness/src/nf.rs) is an independent checker over full_moon ASTs that never consults StyLua's own verify_ast.",
     "technique": "Lean 4 semantic-preservation proofs over models + independent AST normal-form oracle",
-    "rule": PIPE_RULE + SLOT_RULE + "ring 2: `expr` correspondence (see C05). distinct_nontrivial as in C05.",
+    "rule": PIPE_RULE + SLOT_RULE + PROGEN_RULE + "ring 2: `expr` correspondence (see C05); `tyfmt` / `tywf` (Luau types); `block`. distinct_nontrivial as in C05.",
     "trusted_base": ["normal form N: drops parentheses except truncation in multi-value positions, explicit operator grouping, decoded string values, `.5`->`0.5`, call sugar, table separators, semicolons"],
     "assumptions": ["sort_requires off (C12 covers sorting)"],
 }
@@ -200,7 +202,7 @@ PROPS["C03"] = {
     "lean_modules": ["StyluaModel.Props.C03"],
     "theorem_prefix": "C03_",
     "required_theorems": ["C03_load", "C03_text_line", "C03_text_block", "C03_paren_partial", "C03_sort_perm", "C03_eof_comments"],
-    "hx": [["c03"], ["pipe"], ["slots"], ["c12"]],
+    "hx": [["c03"], ["pipe"], ["slots"], ["c12"], ["progen"]],
     "level": "proof",
     "level_text": "Proof, partial: load_token_trivia (through which every token's trivia passes) keeps every comment once, in order, with kind and level, text normalised only by trim_end / newline conversion (theorems for lists of any length); the parenthesis transplant carries a sublist (full preservation is proven false of the code: counterexample theorem); require sorting is a permutation. That every construct routes every token through these functions is carried by the comment-slot enumeration (every token gap of 46 constructs) and the corpus census, whose unchanged-tree failures are listed exactly.",
     "level_note": "Trusted: Lean kernel; Model/Trivia.lean tied by the `trivia` correspondence (~1.4e4 requests per run); census oracle uses full_moon's tokenizer on input and output. Most transplant sites (semicolons, commas, hang_binop, call sugar, table keys) have no model yet: they are covered by ring 3 only.",
@@ -256,7 +258,7 @@ PROPS["C07"] = {
     "lean_modules": ["StyluaModel.Props.C07"],
     "theorem_prefix": "C07_",
     "required_theorems": ["C07_sites_classified", "C07_cost_exp", "C07_poly_calls", "C07_models_total"],
-    "hx": [["c07"], ["pipe"], ["slots"], ["c08"]],
+    "hx": [["c07"], ["pipe"], ["slots"], ["c08"], ["progen"]],
     "level": "proof",
     "level_text": "Proof, partial: (i) the inventory of panic-capable sites of the library is regenerated from the source on every run and must equal the hand-classified list (a new unwrap / panic! / assert! breaks the theorem); (ii) cost recurrences for nested inputs (exponential for nested method chains - a known finding -, quadratic for nested calls), tied to the code by hook counters; (iii) all mirrored decision procedures are total Lean functions. Stack depth, allocation and wall time are runtime behaviour a model cannot exhibit: they are exercised by the oracle (corpus, comment-slot set, truncated / spliced / junk-injected inputs x extreme configurations x degenerate ranges x verification on/off) with panics identified by site.",
     "level_note": "Trusted: Lean kernel; translator's site extraction (regex over /repo/src, test modules and src/cli excluded); the textual justifications in Model/PanicClass.lean; hook counters (lib.rs `pub mod verif`, --cfg stylua_verif). The cost correspondence is one-sided (doing less work than modelled is not a violation).",
